@@ -104,6 +104,10 @@ def strip(sc):
     return {k: v for k, v in sc.items() if not k.startswith("_")}
 
 
+DLG_ID = ("C10 after third-party deletion / re-creation of ObjectSetPhase objects the system does not reach the end state of the "
+          "undisturbed in-process run (handover blocked, objects missing, or revision not archived)")
+
+
 def check(run, tier, seed, replay=None):
     run.level = "proof"
     run.assumptions += [
@@ -122,6 +126,12 @@ def check(run, tier, seed, replay=None):
     r = vlib.rng(seed, "C10")
     if replay:
         d = json.load(open(replay))["replay"]
+        if "stages" in d["scenario"]:
+            import C15 as dlg
+            n, passes, _, _ = dlg.delegation_stage(run, "C10", [d["scenario"]], id_mon=DLG_ID, id_twin=DLG_ID, id_own=DLG_ID)
+            run.cov["evaluations"] = n
+            run.cov["rule"] = "replay"
+            return
         worlds = [d["scenario"]]
     else:
         worlds = base_worlds(r, 14 if tier == "quick" else 80)
@@ -186,3 +196,19 @@ def check(run, tier, seed, replay=None):
                        "first rounds x {error before effect, lost response}, every pass on a fresh controller+cache, drift before every pass; "
                        "distinct = (world kind, disturbance kind, converged, rounds)")
     run.cov["samples"] = [{"scenario": scs[0] if scs else None}]
+    if not replay:
+        # delegated phases: drift = out-of-band deletion of the phase objects (garbage collecting their members) and
+        # re-creation under new uids, followed by a handover; quiescence must reach the end state of the same history
+        # with every phase in-process (the all-local twin run)
+        import dlglib as dl, C15 as dlg
+        r2 = vlib.rng(seed, "C10d")
+        hs = []
+        for m in ([True], [True, False], [False, True]):
+            hs.append(dl.scenario_recreated(r2, mask_old=m, policy="rr"))
+            hs.append(dl.scenario_handover(r2, m, None, nph=len(m), policy="rr"))
+        for _ in range(2 if tier == "quick" else 60):
+            hs.append(dl.scenario_recreated(r2, mask_old=[True] + [r2.random() < 0.5 for _ in range(r2.choice([0, 1]))]))
+        ident = DLG_ID
+        n, passes, _, _ = dlg.delegation_stage(run, "C10", hs, id_mon=ident, id_twin=ident, id_own=ident)
+        run.cov["evaluations"] += n
+        run.cov["delegated_drift_stage"] = {"scenarios": n, "controller_passes": passes}
